@@ -576,8 +576,8 @@ const FLAG_RD: u16 = 0x0100;
 // The configuration served, and the in-process resolver used for expectations
 // =====================================================================================
 
-const BIG_FAMILY: usize = 24;
-const BIG_T0: usize = 392;
+const BIG_FAMILY: usize = 48;
+const BIG_T0: usize = 372;
 const HUGE_RECORDS: usize = 290;
 
 fn filler(seed: usize, len: usize) -> String {
